@@ -60,6 +60,9 @@ def c20Fact (name : String) : Option String :=
   | "checkViewRet" => some (" ".intercalate (Gen.HostApi.checkViewRet.map (·.replace " " "_")))
   | "refuseExempt" => some (" ".intercalate (Gen.HostApi.refuseExempt.map (·.1)))
   | "cErrChecks" => some (" ".intercalate (Gen.HostApi.cErrChecks.map fun (a, b, c, d) => a ++ "=" ++ b ++ "=" ++ c.replace " " "_" ++ "=" ++ d))
+  | "sqlReadonly" => some (c20Pairs Gen.HostApi.sqlReadonlyFirst ++ " | " ++ c20Pairs Gen.HostApi.sqlReadonlyPragmas)
+  | "sqlGateOK" => some s!"{SqlGate.firstOK Gen.HostApi.sqlReadonlyFirst} {SqlGate.pragmasOK Gen.HostApi.sqlReadonlyPragmas}"
+  | "cPrepareGates" => some (c20Pairs Gen.HostApi.cPrepareGates)
   | "refuseOK" => some (toString Gen.HostApi.program.refuseOK)
   | "viewBracket" =>
     some (match Gen.HostApi.program.fns.find? (·.name == "executor.call") with
